@@ -77,7 +77,7 @@ class CheckC14(core.Check):
             for dh in DHS:
                 combos = [(rnd.choice(CIPHERS), rnd.choice(HASHES))] if self.tier == "quick" else [(c, h) for c in CIPHERS for h in HASHES]
                 if self.tier != "quick":
-                    combos = rnd.sample(combos, 4)
+                    combos = rnd.sample(combos, 6)
                 for ci, ha in combos:
                     name = make_name(p, ps, dh, ci, ha)
                     nm = len(overhead(p, ps, 32))
